@@ -30,7 +30,7 @@ ASSUMPTIONS = [
     "path templates differing only by a trailing 's' are not generated (the statement is silent on the plural heuristic)",
 ]
 EXHAUSTIVE = False
-BOUNDS = {"trees_enum": "all trees of <=2 nodes over the reduced universe (5 operations, ids {\"1\", \"12\", 1}, statuses {200,404,403,500}); all 3-node trees over the focus universe (one resource in both identifier spellings, nested order, statuses {200,404}); thorough adds all 3-node trees over the reduced universe with statuses {200,404,403}; parent in {none, any earlier}; linked in {all, none} plus {path only} for operations that have a header / query parameter next to their path parameters (one of them named like a path parameter)"}
+BOUNDS = {"trees_enum": "all trees of <=2 nodes over the reduced universe (5 operations, ids {\"1\", \"12\", 1}, statuses {200,404,403,410,500}); all 3-node trees over the focus universe (one resource in both identifier spellings, nested order, statuses {200,404}); thorough adds all 3-node trees over the reduced universe with statuses {200,404,403}; parent in {none, any earlier}; linked in {all, none} plus {path only} for operations that have a header / query parameter next to their path parameters (one of them named like a path parameter)"}
 
 
 def _param(name, loc="path"):
@@ -65,8 +65,8 @@ OPS = [
 EXTRA = {("put", "/users/{id}"): ("query", "q"), ("get", "/orders/{oid}"): ("query", "oid"), ("get", "/users/{id}/orders/{oid}"): ("headers", "id")}
 HAS_QUERY = set(EXTRA)
 IDS = ["1", "12", 1]  # the integer 1 and the string "1" are the same identifier on the wire
-STATUSES = [200, 404, 403, 500]
-STATUSES_THOROUGH = [200, 201, 204, 302, 400, 403, 404, 500, 503]
+STATUSES = [200, 404, 403, 410, 500]  # 410 and 403 are "not 404" although they read like one
+STATUSES_THOROUGH = [200, 201, 204, 302, 400, 401, 403, 404, 405, 409, 410, 422, 499, 500, 503]
 
 _state: dict = {}
 
@@ -298,7 +298,7 @@ def random_tree(draw):
         if m == "post":
             status = draw(st.sampled_from([200, 201, 201, 302, 400, 500]))
         elif m == "delete":
-            status = draw(st.sampled_from([200, 204, 204, 404, 403, 500]))
+            status = draw(st.sampled_from([200, 204, 204, 404, 403, 410, 500]))
         else:
             status = draw(st.sampled_from(STATUSES_THOROUGH))
         n = {"method": m, "path": p, "pp": pp, "status": status}
